@@ -6,7 +6,9 @@ directory <base>/<Cxx>_out with PROPERTY.txt (the property's text only - nothing
 <base>/prompts/<Cxx>.txt that lists the ideas already kept under seeded/ for that property so the agent proposes
 something different.
 
-usage: tools/round_setup.py <base dir, e.g. /tmp/wt5> [--angle "<extra steer>"] [Cxx ...]
+usage: tools/round_setup.py <base dir, e.g. /tmp/wt5> [--benign] [--angle "<extra steer>"] [Cxx ...]
+       (--benign: the agents are asked for a behaviour-PRESERVING refactoring with a differential test; whatever the checks
+        report on such a change is a false alarm)
        tools/round_setup.py <base dir> --teardown      (removes every worktree and the base dir)"""
 import glob
 import json
@@ -40,6 +42,29 @@ Verify everything yourself: run the full suite on the unchanged worktree first (
 """
 
 
+PROMPT_BENIGN = """You are working in a scratch git worktree of the Python/Cython library Crunch-io/catii located at {wt} (a NumPy library for sparse N-dimensional categorical data: an inverted index `iindex`, contingency cubes `ccube` (index based) and `xcube` (array based) with aggregate functions ffuncs/xfuncs, Cython sorted-set kernels in set_operations.pyx, and the INDX binary file format in indxio.py). Work ONLY inside {wt} and write your deliverables to {out}/. Never touch /repo, /verif or any other directory, and do not read anything under /verif.
+
+Setup facts:
+- Import the worktree's code with `PYTHONPATH={wt}/src /venv/bin/python ...` (check `catii.__file__` points into the worktree).
+- The compiled extension src/catii/set_operations*.so is already in the worktree. If (and only if) you edit set_operations.pyx, rebuild with: `cd {wt} && CYTHONIZE_SETUP_PY=1 /venv/bin/python setup.py build_ext --inplace && rm -rf build`.
+- Test suite: `cd {wt} && PYTHONPATH={wt}/src /venv/bin/python -m pytest -q -p no:cacheprovider --timeout=900 tests 2>&1 | tail -15` (a few seconds; 5 tests fail on the unchanged tree - that is the baseline, and they must stay exactly the same).
+- Do NOT use `git stash` (the stash is shared between all worktrees of this repository and other people work in sibling worktrees).
+
+Goal: read {out}/PROPERTY.txt (a behavioural property of the library). Produce ONE realistic, NON-TRIVIAL source change to the code this property is anchored in (files under src/catii/ only) that a maintainer would merge as a refactoring, clean-up, modernisation or optimisation and that is BEHAVIOUR-PRESERVING: the property - and every other observable behaviour of the public API - must hold exactly as before, for ALL inputs, including the unusual ones (empty inputs, a single category, negative or huge ids, several fact columns, scalar weights, three or more dimensions, pooled evaluation, strided arrays ...). Think of: restructuring a function (early returns, merged or split branches, helper extraction or inlining), renaming locals, replacing one NumPy / Python idiom by a provably equivalent one, a CORRECT fast path, correctly invalidated caching, hoisting invariant work out of a loop, rewriting a loop as a comprehension or the reverse, changing the order of independent statements, tightening types where that is safe. Make it the size of a real commit (10-60 changed lines), touching the core logic rather than comments or docstrings. {angle}
+
+Be your own sceptic: after writing the change, try hard to break it (that is what the next reviewer will do). If you find an input for which behaviour differs, fix the change or choose another one - a change that is subtly wrong is useless here.
+
+Deliverables in {out}/:
+1. patch.diff - output of `git -C {wt} diff -- src/catii` (source only; no tests).
+2. equiv.py - a standalone differential test (run as `/venv/bin/python equiv.py <src dir A> <src dir B>`): it loads the package from each of the two source directories in SEPARATE subprocesses (or via importlib with distinct module names), drives the changed code through the public API with many generated inputs (hundreds to thousands, seeded, covering the unusual cases above), and exits 0 only if every observable result (values, dtypes, shapes, exceptions raised) is identical. It must exit 0 for (unchanged tree, your tree).
+3. notes.md - what you changed and why it is equivalent (the argument, not just the test), what you tried in order to break it, and the commands you ran with their results (tests before / after, equiv.py).
+
+To get an unchanged copy for equiv.py: `git -C {wt} worktree list` shows the main checkout is not yours to use; instead do `mkdir -p {out}/base && git -C {wt} archive HEAD src | tar -x -C {out}/base` and copy the built extension: `cp {wt}/src/catii/set_operations*.so {out}/base/src/catii/` (the .so matches the unchanged .pyx).
+
+Leave the worktree with the patch applied. In your final answer summarise the change in 3-5 lines.
+"""
+
+
 def props():
     out = {}
     for l in open(os.path.join(HERE, "properties.jsonl")):
@@ -65,6 +90,9 @@ def main():
         return
     angle = ""
     args = sys.argv[2:]
+    benign = "--benign" in args
+    if benign:
+        args.remove("--benign")
     if "--angle" in args:
         i = args.index("--angle")
         angle = "\n" + args[i + 1] + "\n"
@@ -85,7 +113,10 @@ def main():
         earlier = []
         for m in sorted(glob.glob(os.path.join(HERE, "seeded", pid + "*", "meta.json"))):
             earlier.append(json.load(open(m))["breaks"])
-        txt = PROMPT.format(wt=wt, out=out, angle=angle, earlier="\n".join('  %d. "%s"' % (i + 1, e) for i, e in enumerate(earlier)) or "  (none yet)")
+        if benign:
+            txt = PROMPT_BENIGN.format(wt=wt, out=out, angle=angle.strip())
+        else:
+            txt = PROMPT.format(wt=wt, out=out, angle=angle, earlier="\n".join('  %d. "%s"' % (i + 1, e) for i, e in enumerate(earlier)) or "  (none yet)")
         with open(os.path.join(base, "prompts", pid + ".txt"), "w") as f:
             f.write(txt)
     print("prepared %d worktrees under %s" % (len(ids), base))
